@@ -47,7 +47,7 @@ func runPortfolio(file string, timeoutS int, needAll bool) solveResult {
 	defer cancel()
 	type ans struct {
 		solver, status, out string
-		secs           float64
+		secs                float64
 	}
 	ch := make(chan ans, len(solvers))
 	start := time.Now()
@@ -102,15 +102,16 @@ func runPortfolio(file string, timeoutS int, needAll bool) solveResult {
 	return res
 }
 
-// solveAll discharges obligations in parallel.
+// solveObligations renders and discharges obligations (used by the dev command).
 func (e *Engine) solveObligations(obls []*Obligation, axioms, assumes []*Term, dir string, timeoutS int, par int, needAll bool) {
-	os.MkdirAll(dir, 0o755)
-	var wg sync.WaitGroup
-	sem := make(chan struct{}, par)
-	var mu sync.Mutex
-	scripts := make([]string, len(obls))
-	// scripts are rendered sequentially (the term tables are not thread safe)
-	for i, o := range obls {
+	e.renderScripts(obls, axioms, assumes)
+	e.runScripts(obls, dir, timeoutS, make(chan struct{}, par), needAll)
+}
+
+// renderScripts builds the SMT-LIB text of every obligation (sequential: the
+// term tables are not thread safe).
+func (e *Engine) renderScripts(obls []*Obligation, axioms, assumes []*Term) {
+	for _, o := range obls {
 		if o.Status == "static" {
 			continue
 		}
@@ -122,24 +123,79 @@ func (e *Engine) solveObligations(obls []*Obligation, axioms, assumes []*Term, d
 			asserts = append(asserts, Not(o.Goal))
 		}
 		asserts = pruneAsserts(asserts, len(axioms)+o.NAssum)
+		syms := map[string]bool{}
+		seenT := map[int]bool{}
+		for _, a := range asserts {
+			Symbols(a, syms, seenT)
+		}
+		if syms["uf:elemIndex"] {
+			asserts = append([]*Term{ElemIndexAxiom()}, asserts...)
+		}
 		s := Script(asserts, true, nil)
 		s = strings.Replace(s, "(check-sat)\n", "(check-sat)\n(get-model)\n", 1)
-		scripts[i] = s
+		o.script = s
 		o.SMTLen = len(s)
+		// quantifier-free variant: used to look for candidate models when the
+		// full query is undecided (a model of fewer assumptions may be spurious:
+		// it only counts once it replays on the real code), and to cross-check
+		// vacuity guards
+		var qf []*Term
+		memo := map[int]bool{}
+		for _, a := range asserts {
+			if !hasQuant(a, memo) {
+				qf = append(qf, a)
+			}
+		}
+		if len(qf) < len(asserts) {
+			s2 := Script(qf, true, nil)
+			o.scriptQF = strings.Replace(s2, "(check-sat)\n", "(check-sat)\n(get-model)\n", 1)
+		}
 	}
-	for i, o := range obls {
+}
+
+// runScripts races the solvers on every rendered obligation; `pool` bounds
+// the number of obligations in flight across all callers.
+func (e *Engine) runScripts(obls []*Obligation, dir string, timeoutS int, pool chan struct{}, needAll bool) {
+	os.MkdirAll(dir, 0o755)
+	var wg sync.WaitGroup
+	var mu sync.Mutex
+	for _, o := range obls {
 		if o.Status == "static" {
 			continue
 		}
-		i, o := i, o
+		o := o
 		wg.Add(1)
-		sem <- struct{}{}
+		pool <- struct{}{}
 		go func() {
 			defer wg.Done()
-			defer func() { <-sem }()
-			f := filepath.Join(dir, sanitize(o.ID)+".smt2")
-			os.WriteFile(f, []byte("; "+o.ID+"\n"+scripts[i]), 0o644)
-			r := runPortfolio(f, timeoutS, needAll)
+			defer func() { <-pool }()
+			name := sanitize(o.ID)
+			if len(name) > 180 {
+				name = name[:180]
+			}
+			f := filepath.Join(dir, name+".smt2")
+			os.WriteFile(f, []byte("; "+o.ID+"\n"+o.script), 0o644)
+			tmo := timeoutS
+			if o.Cover && tmo > 6 {
+				tmo = 6
+			}
+			r := runPortfolio(f, tmo, needAll && !o.Cover)
+			if r.status != "unsat" && r.status != "sat" && o.scriptQF != "" {
+				f2 := filepath.Join(dir, name+".qf.smt2")
+				os.WriteFile(f2, []byte("; quantifier-free variant of "+o.ID+"\n"+o.scriptQF), 0o644)
+				r2 := runPortfolio(f2, tmo/2+1, false)
+				if r2.status == "sat" {
+					if o.Cover {
+						r.status, r.solver = "sat", r2.solver+"(qf)"
+					} else {
+						r.output = "candidate model from the quantifier-free variant (quantified assumptions dropped):\n" + r2.output
+						o.candidateQF = true
+					}
+				} else if r2.status == "unsat" && o.Cover {
+					r.status, r.solver = "unsat", r2.solver+"(qf)"
+				}
+				r.secs += r2.secs
+			}
 			mu.Lock()
 			o.Status, o.Solver, o.Time = r.status, r.solver, r.secs
 			if r.status != "unsat" {
@@ -147,6 +203,8 @@ func (e *Engine) solveObligations(obls []*Obligation, axioms, assumes []*Term, d
 			}
 			o.smtFile = f
 			o.allSolvers = r.all
+			o.script = ""
+			o.scriptQF = ""
 			mu.Unlock()
 		}()
 	}
@@ -203,4 +261,21 @@ func pruneAsserts(asserts []*Term, nBackground int) []*Term {
 		}
 	}
 	return append(out, asserts[nBackground:]...)
+}
+
+func hasQuant(t *Term, memo map[int]bool) bool {
+	if v, ok := memo[t.id]; ok {
+		return v
+	}
+	r := t.Op == "forall"
+	if !r {
+		for _, a := range t.Args {
+			if hasQuant(a, memo) {
+				r = true
+				break
+			}
+		}
+	}
+	memo[t.id] = r
+	return r
 }
